@@ -379,6 +379,124 @@ func (g *tgen) expr(depth int) (js_ast.Expr, string) {
 	}
 }
 
+// Destructuring declarations: every binding element pairs a default value
+// (absent / pure / impure call / throwing IIFE / unknown global) with an array
+// literal element of every shape at its index (absent, undefined, void 0, hole,
+// null, number, identifier, ...[] , ...x). The real rule accepts an array
+// pattern only against an array literal, only identifier/hole elements, and
+// only when EVERY default value is removable, whatever the literal provides.
+func (g *tgen) destructStmt() (js_ast.Stmt, string) {
+	r := g.r
+	mk := func(d js_ast.E) js_ast.Expr { return js_ast.Expr{Data: d} }
+	impure := func() (js_ast.Expr, string) {
+		switch r.Intn(4) {
+		case 0: // probe call
+			return mk(&js_ast.ECall{Target: mk(&js_ast.EIdentifier{Ref: ast.Ref{InnerIndex: 1}})}), "(ECall (EIdent 1%nat false false) [] false)"
+		case 1: // throwing IIFE
+			return mk(&js_ast.ECall{Target: mk(&js_ast.EArrow{})}), "(ECall EArrow [] false)"
+		case 2: // unknown global
+			return mk(&js_ast.EIdentifier{Ref: ast.Ref{InnerIndex: 2}}), "(EIdent 2%nat false false)"
+		default: // coercion
+			return mk(&js_ast.EUnary{Op: js_ast.UnOpPos, Value: mk(&js_ast.EObject{})}), "(EUnary UPos (EObject []) false)"
+		}
+	}
+	pure := func() (js_ast.Expr, string) {
+		switch r.Intn(4) {
+		case 0:
+			return mk(&js_ast.ENumber{Value: 1}), "(ENum 1)"
+		case 1:
+			return mk(&js_ast.EIdentifier{Ref: ast.Ref{InnerIndex: 4}}), "(EIdent 4%nat false false)"
+		case 2:
+			return mk(&js_ast.EArrow{}), "EArrow"
+		default:
+			return mk(&js_ast.EArray{}), "(EArray [])"
+		}
+	}
+	shape := func() (js_ast.Expr, string, string) {
+		switch r.Intn(10) {
+		case 0:
+			return mk(js_ast.EUndefinedShared), "EUndefined", "undefined"
+		case 1:
+			return mk(&js_ast.EUnary{Op: js_ast.UnOpVoid, Value: mk(&js_ast.ENumber{Value: 0})}), "(EUnary UVoid (ENum 0) false)", "void0"
+		case 2:
+			return mk(js_ast.EMissingShared), "EMissing", "hole"
+		case 3:
+			return mk(js_ast.ENullShared), "ENull", "null"
+		case 4:
+			return mk(&js_ast.ENumber{Value: 7}), "(ENum 7)", "number"
+		case 5:
+			return mk(&js_ast.EIdentifier{Ref: ast.Ref{InnerIndex: 5}}), "(EIdent 5%nat false false)", "ident"
+		case 6:
+			return mk(&js_ast.ESpread{Value: mk(&js_ast.EArray{})}), "(ESpread (EArray []))", "spread-empty"
+		case 7:
+			return mk(&js_ast.ESpread{Value: mk(&js_ast.EIdentifier{Ref: ast.Ref{InnerIndex: 5}})}), "(ESpread (EIdent 5%nat false false))", "spread-ident"
+		case 8:
+			return mk(&js_ast.ECall{Target: mk(&js_ast.EIdentifier{Ref: ast.Ref{InnerIndex: 1}})}), "(ECall (EIdent 1%nat false false) [] false)", "call"
+		default:
+			return mk(&js_ast.EString{}), "(EStr [])", "string"
+		}
+	}
+	nb := r.Range(1, 4)
+	var items []js_ast.ArrayBinding
+	var ics []string
+	for i := 0; i < nb; i++ {
+		var ib js_ast.Binding
+		ibc := "BIdent"
+		switch r.Intn(12) {
+		case 0:
+			ib, ibc = js_ast.Binding{Data: js_ast.BMissingShared}, "BMissing"
+		case 1:
+			ib, ibc = js_ast.Binding{Data: &js_ast.BObject{}}, "BOtherBinding"
+		default:
+			ib = js_ast.Binding{Data: &js_ast.BIdentifier{}}
+		}
+		var dv js_ast.Expr
+		dc, has := "", true
+		switch k := r.Intn(10); {
+		case k < 5:
+			dv, dc = impure()
+		case k < 8:
+			dv, dc = pure()
+		default:
+			has = false
+		}
+		items = append(items, js_ast.ArrayBinding{Binding: ib, DefaultValueOrNil: dv})
+		ics = append(ics, fmt.Sprintf("(BItem %s %s)", ibc, optC(has, dc)))
+	}
+	var b js_ast.Binding = js_ast.Binding{Data: &js_ast.BArray{Items: items}}
+	bc := "(BArray " + clist(ics) + ")"
+	if r.Chance(8) { // object pattern: never accepted
+		b, bc = js_ast.Binding{Data: &js_ast.BObject{}}, "BOtherBinding"
+	}
+	// initialiser: an array literal with 0..nb+1 elements of every shape (mostly), or something else
+	var v js_ast.Expr
+	vc, hasV := "", true
+	switch k := r.Intn(20); {
+	case k < 17:
+		var es []js_ast.Expr
+		var cs []string
+		for q := r.Intn(nb + 2); q > 0; q-- {
+			e, ec, kind := shape()
+			es = append(es, e)
+			cs = append(cs, ec)
+			g.n("destructure-shape:" + kind)
+		}
+		v, vc = mk(&js_ast.EArray{Items: es}), "(EArray "+clist(cs)+")"
+	case k < 18:
+		v, vc = mk(&js_ast.EIdentifier{Ref: ast.Ref{InnerIndex: 5}}), "(EIdent 5%nat false false)"
+	case k < 19:
+		v, vc = mk(&js_ast.EObject{}), "(EObject [])"
+	default:
+		hasV = false
+	}
+	kinds := []js_ast.LocalKind{js_ast.LocalVar, js_ast.LocalLet, js_ast.LocalConst}
+	kc := []string{"LVar", "LLet", "LConst"}
+	ki := r.Intn(3)
+	g.n("stmt:destructure")
+	return js_ast.Stmt{Data: &js_ast.SLocal{Kind: kinds[ki], Decls: []js_ast.Decl{{Binding: b, ValueOrNil: v}}}},
+		fmt.Sprintf("(SLocal %s [DDecl %s %s])", kc[ki], bc, optC(hasV, vc))
+}
+
 func (g *tgen) stmts(depth, max int) ([]js_ast.Stmt, string) {
 	k := g.r.Intn(max + 1)
 	var ss []js_ast.Stmt
@@ -537,6 +655,17 @@ func tieClassifier(r *Rng, st *Stats, cf *CoqFile, n int) {
 		got := ctx.StmtsCanBeRemovedIfUnused(ss, flags)
 		stmtItems = append(stmtItems, fmt.Sprintf("(%s, %s, %s, %s)", cb(keep), cb(ret), c, cb(got)))
 		st.Note("classifier-stmts", c+fmt.Sprint(keep, ret), got)
+	}
+	for i := 0; i < n/2; i++ {
+		s, c := g.destructStmt()
+		ss, cc := []js_ast.Stmt{s}, "["+c+"]"
+		if r.Chance(25) { // nested: inside try / class static block positions the same rule applies
+			ss = []js_ast.Stmt{{Data: &js_ast.STry{Block: js_ast.SBlock{Stmts: ss}, Catch: &js_ast.Catch{}}}}
+			cc = "[STry " + cc + " false []]"
+		}
+		got := ctx.StmtsCanBeRemovedIfUnused(ss, 0)
+		stmtItems = append(stmtItems, fmt.Sprintf("(false, false, %s, %s)", cc, cb(got)))
+		st.Note("classifier-destructure", cc, got)
 	}
 	for i := 0; i < n/4; i++ {
 		cl, c := g.class(r.Range(1, 3))
